@@ -19,10 +19,12 @@ import subprocess
 
 import vlib
 
-SPEC = os.path.join(vlib.SPEC, "vm", "CodeBlockWF.tla")
+# C03_SPEC: development override (binding demonstrations with a deliberately corrupted copy of the specification)
+SPEC = os.environ.get("C03_SPEC") or os.path.join(vlib.SPEC, "vm", "CodeBlockWF.tla")
 CORPUS = os.path.join(vlib.ROOT, "corpus", "c03")
 LEFTOVER = ("handler-leftover", "handler-leftover-bind")
-BATCH = 2500          # compilations per TLC run
+BATCH = 4000          # compilations per TLC run, at most
+BATCH_INSTR = 250000  # instructions per TLC run, about
 
 
 # ---------------------------------------------------------------- inputs
@@ -67,6 +69,7 @@ def mutants(progs, rng, count):
     """Seeded token-level mutants of corpus programs; only those the parser accepts are analysed."""
     out = []
     tries = 0
+    progs = [p for p in progs if len(p["src"]) <= 1500]      # small bases: the volume goes into variety, not size
     while len(out) < count and tries < count * 4:
         tries += 1
         p = rng.choice(progs)
@@ -140,10 +143,29 @@ def leaves_finally(block, src, target):
     return any(lo <= src <= hi and not (lo <= target <= hi) for lo, hi in finally_regions(block))
 
 
-def classify(comp, v, roots=None):
+SC_OPS = ("LogicalAnd", "LogicalOr", "Coalesce")
+
+
+def sc_root(block, pc, info):
+    """merge-mismatch that is the short-circuit-assignment leak itself: one of the two arrivals comes from a
+    LogicalAnd/LogicalOr/Coalesce that follows GetNameAndLocator and jumps here, with one more binding reference."""
+    e1, b1, a1, s1, e2, b2, a2, s2 = info
+    if e1 != e2 or a1 != a2 or abs(b1 - b2) != 1:
+        return None
+    src = s2 if b2 > b1 else s1
+    sk, sins = ins_at(block, src)
+    if (sins is not None and sins["op"] in SC_OPS and sins["a"].get("address") == pc and sk > 0
+            and block["code"][sk - 1]["op"] == "GetNameAndLocator"
+            and block["code"][sk - 1]["a"].get("dst") == sins["a"].get("value")):
+        return sins, src
+    return None
+
+
+def classify(comp, v, roots=None, sc_roots=None):
     """Maps one violation <<kind, block, pc, info>> of TLC to (signature, human detail).  The signature of a known
     finding is a fixed string; anything else gets a signature made of the kind and the opcode it was found at.
-    `roots`: set of block numbers in which a parked-return leak was identified (see classify_all)."""
+    `roots` / `sc_roots`: block numbers in which a parked-return leak / a short-circuit-assignment leak was identified
+    (see classify_all)."""
     kind, b, pc, info = v
     block = comp["blocks"][b - 1]
     k, ins = ins_at(block, pc)
@@ -160,33 +182,41 @@ def classify(comp, v, roots=None):
                     f"(environment_count {info[2]})")
     if kind == "merge-mismatch" and len(info) == 8:
         e1, b1, a1, s1, e2, b2, a2, s2 = info
-        sk, sins = ins_at(block, s2)
-        if (sins is not None and sins["op"] in ("LogicalAnd", "LogicalOr", "Coalesce") and sins["a"].get("address") == pc
-                and e1 == e2 and a1 == a2 and b2 == b1 + 1 and sk > 0
-                and block["code"][sk - 1]["op"] == "GetNameAndLocator"
-                and block["code"][sk - 1]["a"].get("dst") == sins["a"].get("value")):
+        r = sc_root(block, pc, info)
+        if r:
             return ("short-circuit-assign-leaves-binding-reference",
-                    f"{sins['op']}@{s2} of '{block['name']}' skips SetNameByLocator: binding reference left at {pc}")
+                    f"{r[0]['op']}@{r[1]} of '{block['name']}' skips SetNameByLocator: binding reference left at {pc}")
+        if e1 == e2 and a1 == a2 and b1 != b2 and sc_roots is not None and b in sc_roots:
+            return ("short-circuit-assign-leaves-binding-reference",
+                    f"'{block['name']}': the binding reference left by a short-circuit assignment travels on (depth {max(b1, b2)} vs {min(b1, b2)} at {pc})")
         if e1 == e2 and b1 == b2 and a1 != a2:
             big = s1 if a1 > a2 else s2
             if leaves_finally(block, big, pc) or (roots is not None and b in roots):
                 return ("finally-abrupt-exit-leaves-parked-return",
                         f"'{block['name']}': a break/continue out of a finally block abandons the return value parked on the stack "
                         f"(depth {max(a1, a2)} vs {min(a1, a2)} at {pc}, from {big})")
+    if kind == "return-depth" and sc_roots is not None and b in sc_roots:
+        return ("short-circuit-assign-leaves-binding-reference",
+                f"'{block['name']}': Return@{pc} with the binding reference left by a short-circuit assignment")
     sig = {"kind": kind, "op": op}
     return sig, f"{kind} at {op}@{pc} of '{block['name']}' info={info}"
 
 
 def classify_all(comp, viols):
-    """Classifies all violations of one compilation.  A parked-return leak found in a block explains the other
-    value-stack-only disagreements of that block (the surplus travels around loops)."""
+    """Classifies all violations of one compilation.  A leak identified in a block explains the other disagreements
+    of the same stack in that block (the surplus travels around loops and down to Return): parked return values for
+    the value stack, short-circuit assignments for the binding-reference stack."""
     roots = set()
+    sc_roots = set()
     for v in viols:
         if v[0] == "merge-mismatch" and len(v[3]) == 8:
             e1, b1, a1, s1, e2, b2, a2, s2 = v[3]
-            if e1 == e2 and b1 == b2 and a1 != a2 and leaves_finally(comp["blocks"][v[1] - 1], s1 if a1 > a2 else s2, v[2]):
+            block = comp["blocks"][v[1] - 1]
+            if e1 == e2 and b1 == b2 and a1 != a2 and leaves_finally(block, s1 if a1 > a2 else s2, v[2]):
                 roots.add(v[1])
-    return [classify(comp, v, roots) for v in viols]
+            if sc_root(block, v[2], v[3]):
+                sc_roots.add(v[1])
+    return [classify(comp, v, roots, sc_roots) for v in viols]
 
 
 def excerpt(block, pc, width=8):
@@ -226,8 +256,19 @@ def run_tlc_batches(ck, comps, tier, depths_from=None):
     depth_rows = []
     states = trans = 0
     sigfile = os.path.join(vlib.WORK, f"c03-sig-{os.getpid()}.json")
-    for lo in range(0, len(comps), BATCH):
-        part = comps[lo:lo + BATCH]
+    # batches of at most BATCH compilations and about BATCH_INSTR instructions (one JVM start each)
+    bounds = []
+    lo = 0
+    while lo < len(comps):
+        hi = lo
+        n = 0
+        while hi < len(comps) and hi - lo < BATCH and (n < BATCH_INSTR or hi == lo):
+            n += sum(len(b["code"]) for b in comps[hi][1]["blocks"])
+            hi += 1
+        bounds.append((lo, hi))
+        lo = hi
+    for lo, hi in bounds:
+        part = comps[lo:hi]
         dump = os.path.join(vlib.WORK, f"c03-dump-{os.getpid()}-{lo}.ndjson")
         with open(dump, "w") as f:
             for _m, c in part:
@@ -247,16 +288,12 @@ def run_tlc_batches(ck, comps, tier, depths_from=None):
         if depths_from is not None and depths_from < lo + len(part):
             env["DEPTHS"] = str(max(1, depths_from - lo + 1))
         r = vlib.run_tlc(SPEC, "MCCodeBlockWF.cfg", workers=8, env_extra=env, on_tagged=on_tagged, timeout=1700,
-                         coverage=(tier == "thorough" and lo == 0), xmx="12g")
+                         xmx="12g")
         os.unlink(dump)
         vlib.tlc_must_pass(r, f"CodeBlockWF batch {lo}")
         states += r["distinct"]
         trans += r["states"]
         ck.cov.setdefault("checker_cmd", r["cmd"] + " (DUMP=<ndjson of compilations> SIG=<hdump --sig>)")
-        if tier == "thorough" and lo == 0:
-            never = [a for a in ("StartBlock", "Step", "FinishBlock") if re.search(r"<%s [^>]*>: 0:" % a, r["raw_tail"])]
-            if never:
-                raise vlib.ToolError(f"TLC coverage: actions never taken: {never}")
     missing = [i for i in range(len(comps)) if i not in results]
     if missing:
         raise vlib.ToolError(f"TLC produced no RESULT for {len(missing)} compilations (first: {missing[0]})")
@@ -344,11 +381,20 @@ def run(tier, replay=None):
     binary = os.path.join(bindir, "hdump")
     os.makedirs(vlib.WORK, exist_ok=True)
     sig = write_sig(binary)
-    table_ops = set(re.findall(r'^\s*"(\w+)" :> Op\(', open(os.path.join(vlib.SPEC, "vm", "CodeBlockOps.tla")).read(), re.M))
+    table_ops = set(re.findall(r'^\s*"(\w+)" :> Op\(', open(os.path.join(os.path.dirname(SPEC), "CodeBlockOps.tla")).read(), re.M))
 
     progs = load_corpus()
     rng = random.Random(vlib.seed())
-    if tier == "quick":
+    replay_prog = None
+    if replay:
+        d = json.load(open(replay)).get("detail", {})
+        if d.get("program") is not None:
+            replay_prog = {"name": d.get("name", "replay"), "src": d["program"], "kind": d.get("kind", "script"),
+                           "strict": bool(d.get("strict", False)), "origin": "hand"}
+    if replay_prog is not None:
+        # exactly the recorded program, compiled once and (if a script) also run with the depth hook
+        progs = [replay_prog, dict(replay_prog, name=replay_prog["name"] + "/compile-only", origin="replay")]
+    elif tier == "quick":
         progs = quick_slice(progs)
     else:
         progs = progs + mutants(progs, rng, 4000)
@@ -396,7 +442,7 @@ def run(tier, replay=None):
             events[i] = r["events"]
         for c in r.get("comps", []):
             comps.append(({"prog": i}, c))
-    if len(comps) < (300 if tier == "quick" else 3000):
+    if replay_prog is None and len(comps) < (300 if tier == "quick" else 3000):
         raise vlib.ToolError(f"vacuity guard: only {len(comps)} compilations to check ({status})")
 
     triples, depth_rows, states, trans = run_tlc_batches(ck, comps, tier, depths_from=depths_from)
@@ -423,23 +469,28 @@ def run(tier, replay=None):
             p = progs[meta["prog"]]
             ck.failure(sig_, {"what": human, "program": p["src"], "name": p["name"], "kind": p["kind"], "strict": p["strict"],
                               "violation": v, "code": excerpt(comp["blocks"][v[1] - 1], v[2])})
+    # every action of the specification must have been taken (counters kept by the model itself): StartBlock/FinishBlock
+    # per analysed block, Step expanding states, exceptional edges, re-arrivals compared at merge points
+    merges = sum(r["m"] for _m, _c, r in triples)
+    if not (analysed > 0 and reached > 0 and excedges > 0 and merges > 0):
+        raise vlib.ToolError(f"vacuity guard: actions not exercised (blocks {analysed}, states {reached}, exceptional edges {excedges}, merges {merges})")
     real_ops = {s["op"] for s in sig if not s["op"].startswith("Reserved")}
     ck.cov.update(states=states, transitions=trans, traces_validated_against_impl=len(comps), programs=len(progs),
                   program_status=status, blocks_checked=blocks, block_analyses=analysed, instructions_in_blocks=instr, abstract_states_expanded=reached,
-                  exceptional_edges=excedges, opcodes_in_engine=len(real_ops), opcodes_in_table=len(table_ops & real_ops),
+                  exceptional_edges=excedges, merge_comparisons=merges, opcodes_in_engine=len(real_ops), opcodes_in_table=len(table_ops & real_ops),
                   opcodes_seen=len(ops_seen), opcodes_never_seen=sorted(real_ops - ops_seen), violation_kinds=kinds,
                   evaluations=reached + excedges, distinct_nontrivial=sum(1 for _m, c, _r in triples if any(b["handlers"] for b in c["blocks"])),
                   rule="one TLC behaviour per compilation (all blocks, recursively through function constants); every instruction reachable in the "
                        "control-flow graph is expanded once per jump-table context; non-trivial = compilations with at least one exception handler")
     for s in triples[:3]:
         ck.sample({"program": progs[s[0]["prog"]]["src"][:200], "blocks": len(s[1]["blocks"]), "result": {k: s[2][k] for k in ("n", "x", "nb")}})
-    if ck.cov["distinct_nontrivial"] < (100 if tier == "quick" else 1000):
+    if replay_prog is None and ck.cov["distinct_nontrivial"] < (100 if tier == "quick" else 1000):
         raise vlib.ToolError("vacuity guard: too few compilations with handlers")
-    if len(ops_seen) < 150:
+    if replay_prog is None and len(ops_seen) < 150:
         raise vlib.ToolError(f"vacuity guard: only {len(ops_seen)} opcodes occur in the dumps")
 
     exact = dynamic_half(ck, progs, triples, depth_rows, events)
-    if exact < 2000:
+    if replay_prog is None and exact < 2000:
         raise vlib.ToolError(f"vacuity guard: only {exact} depth events were compared exactly")
     ck.assumptions += [
         "the dump hook decodes with the VM's own InstructionIterator: a block the VM would decode differently is not modelled",
